@@ -125,6 +125,11 @@ pub struct Case {
 fn check(c: &Case, obs: &mut Obs) -> Result<(), String> {
     let (an, ad) = c.a;
     let (bn, bd) = c.b;
+    if ad == 0 || bd == 0 {
+        // not a rational (the generator never produces it; a mutated case may)
+        obs.skip("zero-denominator");
+        return Ok(());
+    }
     let pa = guarded("Phase::new", || mk(an, ad))?;
     let pb = guarded("Phase::new", || mk(bn, bd))?;
     let ca = canon(an as i128, ad as i128);
